@@ -50,9 +50,39 @@ def fastmath_unsafe(flags):
     return False
 
 
+def pseudocount_rule(repo):
+    """The table is built from log2(pwm + eps) - log2(bg) for EVERY pwm: the pseudocount is part of the scored model, not a guard against
+    log(0).  In `fimo` the addition of `eps` reaches the log unconditionally (it sits in the argument of the log or in an assignment that
+    no `if` encloses)."""
+    role = "the pseudocount is added to every PWM before the logarithm (not only when a zero entry is present)"
+    if not repo.has_func(F + ".fimo"):
+        return []
+    fi = repo.func(F + ".fimo")
+    pm = parent_map(fi.node)
+    adds = [n for n in ast.walk(fi.node) if isinstance(n, ast.BinOp) and isinstance(n.op, ast.Add) and
+            any(isinstance(x, ast.Name) and x.id == "eps" for x in (n.left, n.right))]
+    adds += [n for n in ast.walk(fi.node) if isinstance(n, ast.AugAssign) and isinstance(n.op, ast.Add) and isinstance(n.value, ast.Name) and n.value.id == "eps"]
+    if not adds:
+        return [unrecognised("EPS", fi, role, "no `+ eps` found in fimo", fi.node)]
+    cond = []
+    for a in adds:
+        x = a
+        while x in pm:
+            x = pm[x]
+            if isinstance(x, (ast.If, ast.IfExp, ast.While)) and not (isinstance(x, ast.If) and "isinstance(" in unparse(x.test)):
+                cond.append((a, x))
+                break
+    if len(cond) == len(adds):
+        a, x = cond[0]
+        return [named("EPS", fi, role, "`%s` only happens under `%s`: PWMs without a zero entry are scored without the pseudocount, so the table and the "
+                      "reported p-values belong to a different model than the one `eps` defines" % (unparse(a)[:40], unparse(x.test)[:50]), x)]
+    return [holds("EPS", fi, role, "`%s` is unconditional" % unparse([a for a in adds if a not in [c[0] for c in cond]][0])[:50], adds[0], nontrivial=False)]
+
+
 def run(repo, tier):
     out = []
     m = repo.mod(F)
+    out += pseudocount_rule(repo)
     # ------------------------------------------------------------ R-FASTMATH on every jitted function handling inf
     n_checked = 0
     for name in ("logaddexp2", "_pwm_to_mapping", "_all_pwm_to_mapping"):
